@@ -129,6 +129,18 @@ M = [
   '''    double Model::getExpectedReward(const size_t s, const size_t a, const size_t) const {
         return rewards_(s, a);''', '''    double Model::getExpectedReward(const size_t s, const size_t a, const size_t s1) const {
         return rewards_(s1, a);'''),
+ ('N12 operator>>(istream&, Model&) sets the discount on the target instead of the temporary (a later failure leaves it changed)', 'src/MDP/IO.cpp',
+  '''            AI_LOGGER(AI_SEVERITY_ERROR, "Could not read Model discount.");
+            return is;
+        } else
+            in.setDiscount(discount);''', '''            AI_LOGGER(AI_SEVERITY_ERROR, "Could not read Model discount.");
+            return is;
+        } else
+            m.setDiscount(discount);'''),
+ ('N13 AMDP::discretizeDense accumulates the reward without the observation probability', 'include/AIToolbox/POMDP/Algorithms/AMDP.hpp',
+  '''                        T[a](s, s1) += p;
+                        R(s, a)     += p * r;''', '''                        T[a](s, s1) += p;
+                        R(s, a)     += r;'''),
 ]
 UT = '--ut' in sys.argv
 LENIENT = '--lenient' in sys.argv      # skip the textual tie (AITB.Gen.C06Sites) to see what the behavioural clauses catch alone
